@@ -171,6 +171,7 @@ func TestRepair(t *testing.T) {
 		out.Begin(name, nil)
 		rng := rand.New(rand.NewSource(rec.Mix(rec.Seed(), name)))
 		var viol []rec.Violation
+		var sample any
 		counts := map[string]int64{}
 		classes := map[string]bool{}
 		for j := 0; j < 50; j++ {
@@ -248,6 +249,10 @@ func TestRepair(t *testing.T) {
 					viol = append(viol, v("C17", "repair-not-faithful:"+lr.String(), fmt.Sprintf("%s: repaired message differs from the message built with the sanitised text (more than the offending bytes changed)", lr), map[string]any{"got": fmt.Sprint(real), "want": fmt.Sprint(ref)}))
 				} else {
 					counts["repaired_faithfully"]++
+					if sample == nil {
+						w, _ := dm.Interface().(marshaler).Marshal()
+						sample = map[string]any{"mode": "invalid UTF-8 in failure messages", "root": lr.String(), "wire_bytes_hex_head": fmt.Sprintf("%x", w[:min(len(w), 96)]), "decoded": fmt.Sprint(real)[:min(len(fmt.Sprint(real)), 400)]}
+					}
 				}
 			case 3: // (3a) invalid UTF-8 in a string that is not a failure message: must be an error
 				var ss []reflect.Value
@@ -337,7 +342,7 @@ func TestRepair(t *testing.T) {
 		for c := range classes {
 			cl = append(cl, c)
 		}
-		out.End(rec.Line{Case: name, Viol: dedupeV(viol), Counts: counts, Classes: cl})
+		out.End(rec.Line{Case: name, Viol: dedupeV(viol), Counts: counts, Classes: cl, Sample: sample})
 	}
 	// current-schema random messages (fields unknown to the legacy schema included)
 	m := 2000
